@@ -15,6 +15,9 @@ TRUSTED_COMMON = [
     'implementation\'s choice is recorded and fed to the model), float64 utilisation as exact rationals with the '
     'x+eps case split (Queue.avail_q), virtual clock (time.time patched), _global_order replaced by a counter',
     'RecordUpdate library (record setters), no axioms',
+    'source-shape translator harness/tables_shape.py: the statement skeletons of the scheduler functions the theorems '
+    'are about are re-extracted from the Python AST on every run and must equal the recorded ones '
+    '(coq/theories/Sched/ShapeCanon.v, readable form shape_canon.txt); premise Cxx_source_shape by vm_compute',
 ]
 ASSUMPTIONS_COMMON = [
     'integer-valued capacity/demand vectors of dimension 3 (numpy float64 holds them exactly below 2^53)',
@@ -74,7 +77,7 @@ def make_spec(pid, profile, rule_extra, n_quick=100, n_thorough=6000, extra_orac
         return {'distribution': {'op_kinds': kinds, 'totals': tot, 'skipped_by_error_type': errors}}
 
     return {
-        'model_vos': ecell.MODEL_VOS, 'table_sections': list(table_sections),
+        'model_vos': ecell.MODEL_VOS, 'table_sections': list(table_sections) + ['source_shape'],
         'preamble': ecell.PREAMBLE, 'run_fn': 'run_case', 'in_type': ecell.IN_TYPE,
         'gen_case': gen_case, 'impl_run': impl_run, 'expected': expected,
         'case_term': lambda c, o: ecell.case_term(c, o['ops']),
